@@ -161,6 +161,15 @@ impl<'a> StateMachine<'a> {
                 }
             }
 
+            // A merge conflict region which is never closed ends with its hunk: show the
+            // lines collected so far before anything that is not a hunk line.
+            if matches!(self.state, State::MergeConflict(_, _))
+                && !self.line.is_empty()
+                && !self.line.starts_with([' ', '+', '-', '\\'])
+            {
+                self.end_unclosed_merge_conflict()?;
+            }
+
             // Every method named handle_* must return std::io::Result<bool>.
             // The bool indicates whether the line has been handled by that
             // method (in which case no subsequent handlers are permitted to
@@ -187,6 +196,7 @@ impl<'a> StateMachine<'a> {
         #[cfg(dandavison_delta_verif)]
         crate::verif_hooks::boundary(self);
 
+        self.end_unclosed_merge_conflict()?;
         self.handle_pending_line_with_diff_name()?;
         self.painter.paint_buffered_minus_and_plus_lines();
         self.painter.emit()?;
